@@ -169,6 +169,10 @@ class IFunc:
     def __repr__(self):
         return f'<IFunc {self.name}>'
 
+    def __call__(self, *args, **kwargs):
+        """an interpreted function handed to a native callee (list.sort(key=...), map, sorted): interpreted on call"""
+        return self.interp.call(self, args, kwargs)
+
 
 _BINOPS = {
     ast.Add: operator.add, ast.Sub: operator.sub, ast.Mult: operator.mul, ast.FloorDiv: operator.floordiv,
